@@ -78,14 +78,14 @@ def gen_ty(rng, d=0):
 BAD_TYPES = ["u16", "u32", "str", "(  )", "( )", "[u64]", "[u64; ]", "{u64,}", "string<>", "__ptr", "u64x", "uint", "( u64 | )", "string<18446744073709551616>"]
 
 
-def run_c05(binp, lines, work, tag):
+def run_c05(binp, lines, work, tag, env=None):
     import concurrent.futures as cf
     d = os.path.join(work, "run"); os.makedirs(d, exist_ok=True)
     nproc = min(NCPU, max(1, len(lines) // 200))
     def one(k):
         outp = os.path.join(d, "%s_%d.out" % (tag, k))
         if os.path.exists(outp): os.remove(outp)
-        rc, text = rust.run(binp, [outp], input="".join(l + "\n" for l in lines[k::nproc]), timeout=3000)
+        rc, text = rust.run(binp, [outp], input="".join(l + "\n" for l in lines[k::nproc]), timeout=3000, env=env)
         if rc != 0 or not os.path.exists(outp):
             raise RuntimeError("harness c05 failed rc=%s: %s" % (rc, text[-1500:]))
         res, cur = {}, None
@@ -203,6 +203,35 @@ def run(ctx):
         res = run_c05(binp, lines, ctx.work, "mod")
     except RuntimeError as e:
         ctx.violation("harness-run", {"log": str(e)[-3000:]}, "harness c05 failed to run", no_input=True); return
+    # The same under the ExperimentalFeatures default (new_encoding on, what a normal forc build uses): modules
+    # compiled with the new encoding (corpus/C05/newenc: __entry, entry_orig, test entries, raw slice constants,
+    # unnamed contract calls), and the old-encoding modules read into a new-encoding context.
+    newenc = sorted(glob.glob(os.path.join(ROOT, "corpus/C05/newenc/*.ir")))
+    if len(newenc) < 50:
+        ctx.violation("corpus", {"newenc": len(newenc)}, "corpus/C05/newenc not found", no_input=True); return
+    ne_lines, ne_seqs = [], {}
+    def add_ne(f, ps):
+        i = "n%d" % len(ne_seqs); ne_seqs[i] = (f, ps); ne_lines.append("rt\t%s\t%s\t%s" % (i, f, ",".join(ps) or "-"))
+    for f in newenc:
+        add_ne(f, O1); add_ne(f, O0)
+        for _ in range(4 if quick else 60):
+            add_ne(f, [rng.choice(TRANSFORMS) for _ in range(rng.randint(1, maxlen))])
+    for f in files:
+        add_ne(f, O0)
+    ne_be = {}
+    for f in newenc:
+        for lv in ("O0", "O1"):
+            i = "nb%d" % len(ne_be); ne_be[i] = (f, lv); ne_lines.append("be\t%s\t%s\t%s" % (i, f, lv))
+    try:
+        ne_res = run_c05(binp, ne_lines, ctx.work, "newenc", env={"HX_NEW_ENCODING": "1"})
+    except RuntimeError as e:
+        ctx.violation("harness-run", {"log": str(e)[-3000:]}, "harness c05 failed to run (new encoding)", no_input=True); return
+    res.update(ne_res)
+    nfiles_old = len(seqs)
+    seqs.update(ne_seqs)
+    for i, (f, lv) in ne_be.items(): be[i] = (f, lv)
+    NEWENC = set(ne_seqs) | set(ne_be)
+
     rt_hist = collections.Counter()
     groups = {}
     stages = 0
@@ -216,19 +245,23 @@ def run(ctx):
             if st == "ok-entrymut" and (entrymut is None or len(ps) < len(entrymut[1])):
                 entrymut = (f, ps[:int(l.split(" ")[1])])
         ff = rt_failure(rl)
+        if ff is None and rl and rl[0].split(" ", 3)[3].startswith("input") and "/corpus/C05/newenc/" in f:
+            # a module printed by the compiler that the parser cannot read at all
+            ff = (0, "parse", rl[0].split(" ", 3)[3])
         if ff is not None:
             cls = ff[2].split(" ")[0]
-            groups.setdefault((f, ff[1], cls), (ps[:ff[0]], ff))
+            groups.setdefault((f, ff[1], cls, i in NEWENC), (ps[:ff[0]], ff, i in NEWENC))
     # minimise
     cnt = [0]
-    for (f, pname, cls), (ps, ff) in sorted(groups.items(), key=lambda kv: (len(kv[1][0]), kv[0])):
+    for (f, pname, cls, ne), (ps, ff, _ne) in sorted(groups.items(), key=lambda kv: (len(kv[1][0]), kv[0])):
+        env = {"HX_NEW_ENCODING": "1"} if ne else None
         changed = True
         while changed and len(ps) > 1:
             changed = False
             for k in range(len(ps) - 1):
                 trial = ps[:k] + ps[k + 1:]
                 cnt[0] += 1
-                r = run_c05(binp, ["rt\tx\t%s\t%s" % (f, ",".join(trial))], ctx.work, "min").get("x", [])
+                r = run_c05(binp, ["rt\tx\t%s\t%s" % (f, ",".join(trial))], ctx.work, "min", env=env).get("x", [])
                 f2 = rt_failure(r)
                 if f2 is not None and f2[0] == len(trial) and f2[2].split(" ")[0] == cls:
                     ps = trial; changed = True; break
@@ -237,8 +270,9 @@ def run(ctx):
             p = detail.split(" ")
             try: detail = "line %s: %r became %r" % (p[1], bytes.fromhex(p[2]).decode()[:160].strip(), bytes.fromhex(p[3]).decode()[:160].strip())
             except Exception: pass
-        key = "%s:%s" % (short(f), ",".join(ps))
-        ctx.violation(key, {"ir_file": f, "passes": ps, "result": ff[2][:600], "replay": "printf 'rt\\tx\\t%s\\t%s\\n' | harness/target/debug/c05 /dev/stdout" % (f, ",".join(ps))},
+        key = "%s%s:%s" % ("newenc:" if ne else "", short(f), ",".join(ps))
+        ctx.violation(key, {"ir_file": f, "passes": ps, "new_encoding_context": ne, "result": ff[2][:600],
+                            "replay": "printf 'rt\\tx\\t%s\\t%s\\n' | %sharness/target/debug/c05 /dev/stdout" % (f, ",".join(ps), "HX_NEW_ENCODING=1 " if ne else "")},
                       "IR text of %s after [%s] does not round-trip: %s" % (short(f), ",".join(ps), detail))
     if entrymut is not None:
         ctx.violation("entry-arg-immutability", {"ir_file": entrymut[0], "passes": entrymut[1], "stages_affected": rt_hist["ok-entrymut"]},
